@@ -189,6 +189,9 @@ let f _id vs =
         let expect_code c = if obs_err <> Some c then
             diff (Printf.sprintf "expected error code %d, observed %s" c
                     (match obs_err with Some x -> "code " ^ string_of_int x | None -> "an answer")) in
+        let expect_native_err c = match obs_err with
+          | None -> prop (Printf.sprintf "answers although the native request it maps to fails (code %d)" c)
+          | Some _ -> expect_code c in
         (try
           (match kind with
            | 0 ->
@@ -240,7 +243,7 @@ let f _id vs =
                  | _ -> raise (Missing "native BatchCheck not recorded") in
                match evaluations check batch_check sd sb top with
                | EsInvalidArg -> expect_code 3
-               | EsError e -> expect_code e.code
+               | EsError e -> expect_native_err e.code
                | EsOk l ->
                  (match obs with
                   | [I "0"; rs] ->
@@ -266,7 +269,7 @@ let f _id vs =
                 let req = { ss_store = []; ss_header = h; ss_resource = r'; ss_action = a';
                             ss_subject = { f_type = s'.e_type; f_props = s'.e_props }; ss_context = c } in
                 (match subject_search list_users req with
-                 | Inl e -> expect_code e.code
+                 | Inl e -> expect_native_err e.code
                  | Inr l ->
                    let exp = List.sort compare (List.map (fun (t, i) -> (coq_to_bytes t, coq_to_bytes i)) l) in
                    (match obs with
@@ -281,7 +284,7 @@ let f _id vs =
                 let req = { rs_store = []; rs_header = h; rs_subject = s'; rs_action = a';
                             rs_resource = { f_type = r'.e_type; f_props = r'.e_props }; rs_context = c } in
                 (match resource_search list_objects req with
-                 | Inl e -> expect_code e.code
+                 | Inl e -> expect_native_err e.code
                  | Inr l ->
                    let exp = List.sort compare (List.map (fun (t, i) -> (coq_to_bytes t, coq_to_bytes i)) l) in
                    (match obs with
@@ -301,7 +304,7 @@ let f _id vs =
                     let req = { as_store = []; as_model = bytes_to_coq (canon_model (coq_to_bytes (model_id_from_header h)));
                                 as_subject = s'; as_resource = r'; as_context = c } in
                     match action_search (fun qs -> Inr (List.map check qs)) req rels with
-                    | Inl (e : err) -> expect_code e.code
+                    | Inl (e : err) -> expect_native_err e.code
                     | Inr l ->
                       let exp = List.sort compare (List.map coq_to_bytes l) in
                       (match obs with
